@@ -46,9 +46,10 @@ CanStep == Len(hist) < MaxDepth
 (* fit(y[lo..hi], fh): a new series replaces everything remembered *)
 Fit(lo, hi, fh) ==
     /\ CanStep
-    \* re-fit of an already fitted forecaster without a horizon: the code keeps the stored horizon
-    \* (and raises if none is stored); outside C03/C10, so only generated when a horizon is stored
-    /\ ~(fitted /\ fh = NoFh /\ (mode = "req" \/ sfh = NoFh))
+    \* re-fit of an already fitted object WITHOUT a horizon is not generated: plain forecasters keep the
+    \* stored horizon (and raise if none is stored), composites and tuners re-clone their components and
+    \* forget it; that behaviour is outside C03/C10 (DESIGN 7)
+    /\ ~(fitted /\ fh = NoFh)
     /\ ~(fitted /\ mode = "req" /\ fh # sfh)          \* nor with a different horizon when fitting depends on it
     /\ IF mode = "req" /\ fh = NoFh
        THEN Unch /\ Log(Entry("fit", lo, hi, FALSE, fh, NoCv, RejSnap))
